@@ -55,6 +55,7 @@ Known(exp, n) == Has(exp, "policies") /\ n \in DOMAIN exp.policies
 Acked(e) == e.fault \in {"none", "close-after"}      \* the reply that was sent is a positive one
 Mut(e) == Has(e, "mutated") /\ e.mutated            \* the router executed the request, its reply was damaged (C14)
 Executed(e) == Acked(e) \/ Mut(e)
+Effective(e) == ~Has(e, "effective") \/ e.effective    \* a commit that is neither <check/> nor <confirmed/>
 
 ---------------------------------------------------------------------------
 (* events of one session *)
@@ -88,7 +89,7 @@ ReqViol(st, e, staged1) ==
              ELSE IF Pol(st.expect, n).eval # "ok"
              THEN {V("C03", "UpdateOfPolicyWhoseDataCouldNotBeObtained", "eval=" \o Pol(st.expect, n).eval, e)}
              ELSE
-               LET P == Get(Load(st.staged, e.update), n)      \* the update on its own, acknowledged or not
+               LET P == Get(LoadAct(st.staged, e.update, e.action), n)      \* the update on its own, acknowledged or not
                    d == DenMerge(st.den, DenOf(e))
                    x == Pol(st.expect, n) IN
                (IF FailOpen(P) THEN {V("C02", "FailOpenPolicy",
@@ -105,7 +106,7 @@ ReqViol(st, e, staged1) ==
 
 ReqStep(st, e) ==
   LET k == e.kind
-      staged1 == IF k = "load" /\ Executed(e) THEN Load(st.staged, e.update)
+      staged1 == IF k = "load" /\ Executed(e) THEN LoadAct(st.staged, e.update, e.action)
                  ELSE IF k = "open" /\ Executed(e) THEN st.eph ELSE st.staged
       names == IF k = "load" THEN {e.update.policies[i].policy : i \in {i \in 1..Len(e.update.policies) : ~e.update.policies[i].delete}} ELSE {}
       dels  == IF k = "load" THEN {e.update.policies[i].policy : i \in {i \in 1..Len(e.update.policies) : e.update.policies[i].delete}} ELSE {}
@@ -119,8 +120,8 @@ ReqStep(st, e) ==
         \* closing the connection after the <ok/> to close-session is what every server does
         !.faulted = @ \/ (e.fault # "none" /\ ~(k = "close-session" /\ e.fault = "close-after")),
         !.commitSeen = @ \/ k = "commit",
-        !.commitAcked = @ \/ (k = "commit" /\ Acked(e)),
-        !.eph = IF k = "commit" /\ (e.fault = "none" \/ Mut(e)) THEN staged1 ELSE @,
+        !.commitAcked = @ \/ (k = "commit" /\ Acked(e) /\ Effective(e)),
+        !.eph = IF k = "commit" /\ (e.fault = "none" \/ Mut(e)) /\ Effective(e) THEN staged1 ELSE @,
         !.closeDbAcked = @ \/ (k = "close-db" /\ Acked(e) /\ e.fault = "none"),
         !.closeSessAcked = @ \/ (k = "close-session" /\ Acked(e)),
         !.updated = @ \cup names, !.deleted = @ \cup dels,
